@@ -75,10 +75,21 @@ func (o *vos) History() ([]string, error)                        { return nil, n
 func (o *vos) Readline(opts interp.ReadlineOpts) (string, error) { return "", io.EOF }
 
 const forever = `(range(1000000000) | select(. < 0))`
+
+// native: a Go function that writes ~20 000 lines straight to the evaluation's output (not a jq generator): an interrupt that lands
+// while it writes must stop the output; the last rows of the dump (addresses within 64 bytes of the end) must never be written by a
+// cancelled evaluation
+const native = `("x" * 300000 | tobytes | hexdump)`
+const nativeBytes = 300000
+
+var nativeOut bool // the innermost level writes through the native function when it is interrupted
 const short = `(eval("1, 2") | empty)`
 
 func program(level, depth int) string {
 	if level == depth {
+		if nativeOut {
+			return fmt.Sprintf(`%s, "s%d", %s, %s, "z%d"`, short, level, native, forever, level)
+		}
 		return fmt.Sprintf(`%s, "s%d", %s, "z%d"`, short, level, forever, level)
 	}
 	inner, _ := json.Marshal(program(level+1, depth))
@@ -185,7 +196,7 @@ func runNested(out *kit.Out, depth int, stopAt int, yield int) (aborted bool) {
 			}
 			pushed, alive = k, k
 			emit("push", k-1, k)
-			if k == depth {
+			if k == depth && !nativeOut {
 				deliver()
 			}
 		case strings.HasSuffix(line, ":context canceled") && sscan(strings.TrimSuffix(line, ":context canceled"), "c%d", &k):
@@ -201,6 +212,16 @@ func runNested(out *kit.Out, depth int, stopAt int, yield int) (aborted bool) {
 			}
 			settle(k)
 			deliver()
+		case nativeOut && (strings.HasPrefix(line, "0x") || strings.HasPrefix(line, "    |") || strings.HasPrefix(line, "  ")):
+			// rows of the native dump of the innermost level: the first one triggers the interrupt (the writer is then in the middle of
+			// its output), the last one must never come
+			if alive == depth && pending == "" && nint == 0 {
+				deliver()
+			}
+			var addr int
+			if n, _ := fmt.Sscanf(line, "0x%x|", &addr); n == 1 && addr >= nativeBytes-64 {
+				bad++ // the output of a cancelled evaluation ran to completion
+			}
 		default:
 			bad++
 		}
@@ -317,6 +338,7 @@ func main() {
 	aborted := 0
 	for r := 0; r < runs; r++ {
 		depth := 1 + r%4
+		nativeOut = r%5 == 4 // one run in five: the innermost level is interrupted while a native function writes its output
 		stopAt := 0
 		if r%3 == 2 {
 			stopAt = 1 + rng.Intn(depth)
